@@ -100,7 +100,7 @@ GhostInit == [q2in |-> <<>>, unacked |-> <<>>, txed |-> <<>>, ackd |-> <<>>, pub
               seen |-> {}, connacks |-> <<>>, discd |-> {}, rm |-> <<>>, tam |-> <<>>, mps |-> <<>>,
               will |-> <<>>, pendw |-> <<>>, nowill |-> {}, willsent |-> {}, aliasOut |-> <<>>, aliasIn |-> <<>>,
               expm |-> <<>>, tickR |-> 0, tickI |-> 0, dsdel |-> <<>>, resentOn |-> {},
-              sdr |-> {}, rdr |-> {}, clob |-> <<>>]
+              sdr |-> {}, rdr |-> {}, clob |-> <<>>, wipedw |-> {}]
 
 (* ================================================================== publications of a step *)
 Qos2Open(c, pid) == pid \in Get(g.q2in, c, {})
@@ -390,13 +390,25 @@ OldConnOf(i) == \* the live connection of the same client id before a connect st
 
 (* structural validity of a CONNECT as generated by the harness (flags are computed from the    *)
 (* fields unless rawflags overrides them)                                                        *)
+Bit(n, b) == (n \div (2 ^ b)) % 2
+ConnectFlagsOf(a) ==
+    IF a.rawflags > 0 THEN a.rawflags
+    ELSE (IF a.clean THEN 2 ELSE 0)
+         + (IF "will" \in DOMAIN a THEN 4 + 8 * a.will.qos + (IF a.will.retain THEN 32 ELSE 0) ELSE 0)
+         + (IF a.pass # "" THEN 64 ELSE 0) + (IF a.user # "" THEN 128 ELSE 0)
 ValidConnect(a) ==
+    LET fl == ConnectFlagsOf(a)
+        willQ == (fl \div 8) % 4 IN
     /\ a.v \in {3, 4, 5}
     /\ (a.proto = "" \/ (a.v = 3 /\ a.proto = "MQIsdp") \/ (a.v \in {4, 5} /\ a.proto = "MQTT"))
-    /\ a.rawflags = 0
+    /\ Bit(fl, 0) = 0                                                    \* [MQTT-3.1.2-3]
+    /\ (Bit(fl, 2) = 0 => (willQ = 0 /\ Bit(fl, 5) = 0))                 \* [MQTT-3.1.2-11] [MQTT-3.1.2-13]
+    /\ willQ # 3                                                         \* [MQTT-3.1.2-12]
+    /\ (Bit(fl, 2) = 1 => "will" \in DOMAIN a)
+    /\ (a.v < 5 => (Bit(fl, 6) = 1 => Bit(fl, 7) = 1))                    \* [MQTT-3.1.2-22]
     /\ ~(a.v < 5 /\ ~a.clean /\ a.id = "")
     /\ (("will" \in DOMAIN a) => (a.will.qos <= cfg.max_qos /\ (a.will.retain => cfg.retain_avail = 1)
-                                  /\ a.will.t # <<>> /\ (\A n \in 1..Len(a.will.t) : ~Wild(a.will.t[n]))))
+                                  /\ a.will.t # <<>> /\ a.will.m # "" /\ (\A n \in 1..Len(a.will.t) : ~Wild(a.will.t[n]))))
     /\ a.v >= cfg.min_proto
 AuthAllows(a) ==
     IF cfg.scripted # <<>> /\ (\E n \in 1..Len(cfg.scripted) : cfg.scripted[n].auth # "")
@@ -488,13 +500,14 @@ GhostNextOf(i) ==
         newPend == {k \in DOMAIN g.will : AbnormalEndG(i, k) /\ g.will[k].delay > 0 /\ g.will[k].v = 5}
         pend0 == [c0 \in {c1 \in DOMAIN g.pendw : ~(isConn /\ ConnackOK(e) /\ e.c = c1)
                                                    /\ ~(e.ev = "tick" /\ e.a.kind = "wills" /\ g.pendw[c1].due < e.tick)} |-> g.pendw[c0]]
-        pendN == [c0 \in DOMAIN pend0 \cup {g.will[k].c : k \in newPend} |->
+        pendN == [c0 \in DOMAIN pend0 \cup {g.will[k].c : k \in {x \in newPend : ~(isConn /\ ConnackOK(e) /\ g.will[x].c = e.c)}} |->
                     IF \E k \in newPend : g.will[k].c = c0
                     THEN LET w == g.will[CHOOSE k \in newPend : g.will[k].c = c0] IN
                          [m |-> w.m, t |-> w.t, ts |-> w.ts, qos |-> w.qos, retain |-> w.retain, due |-> e.st.now + w.delay]
                     ELSE pend0[c0]]
         nowillN == g.nowill \cup {g.will[k].m : k \in {x \in DOMAIN g.will : e.ev = "disconnect" /\ e.k = x /\ ok /\ e.a.rc = 0}}
                             \cup (IF isConn /\ ConnackSP(e) /\ e.c \in DOMAIN g.pendw THEN {g.pendw[e.c].m} ELSE {})
+                            \cup (IF isConn /\ ConnackSP(e) THEN {g.will[k].m : k \in {x \in newPend : g.will[x].c = e.c}} ELSE {})
         sentN == g.willsent \cup {h.m : h \in {x \in Hooks(e) : x.h = "will_sent"}}
         aoN == [k \in DOMAIN g.aliasOut \cup {x \in DOMAIN e.out : \E q \in ToSet(e.out[x]) : q.t = PUBLISH /\ q.alias > 0 /\ q.ts # ""} |->
                   LET old == Get(g.aliasOut, k, <<>>)
@@ -518,6 +531,9 @@ GhostNextOf(i) ==
                     (IF ok /\ e.c = c0 /\ e.ev = "publish" /\ e.a.qos > 0
                         /\ (\E r \in InflightOf(pre, c0) : r.t \in {PUBLISH, PUBREL} /\ r.pid = e.a.pid /\ ~(\E r2 \in InflightOf(e.st, c0) : r2.pid = r.pid /\ r2.m = r.m /\ r2.t = r.t))
                      THEN {e.a.pid} ELSE {})],
+        wipedw |-> g.wipedw \cup (IF e.ev = "tick" /\ e.a.kind = "wills"
+                                   THEN {k \in DOMAIN g.will : \E h \in Hooks(e) : h.h = "will_sent" /\ h.c = g.will[k].c /\ h.m # g.will[k].m}
+                                   ELSE {}),
         rdr |-> g.rdr \cup (IF ok /\ e.ev = "pubrec" /\ e.a.rc < 128 THEN {e.k} ELSE {}),
         resentOn |-> g.resentOn \cup (IF isConn /\ (\E q \in ToSet(OutOf(e, e.k)) : q.t \in {PUBLISH, PUBREL}) THEN {e.k} ELSE {}),
         dsdel |-> [c0 \in ids |-> IF SessionEndsIn(i, c0) THEN {} ELSE Get(g.dsdel, c0, {}) \cup {r.pid : r \in DeferredDeleted(i, c0)}],
@@ -551,10 +567,14 @@ J_C14(i) ==
     Cat(<<
       IF e.ev # "connect" \/ e.err # "" \/ ~ConnackOK(e) THEN <<>> ELSE
       LET existed == HasClient(pre, e.c)
+          \* a predecessor session that ends with its network connection (v3 clean session, v5 expiry 0) ends by
+          \* the takeover / has ended at its disconnect: whether the broker still counts it is left free
+          ephemeral == existed /\ LET c == ClientRec(pre, e.c) IN EndsAtDisconnect(c.v, c.clean, c.sei)
           old == OldConnOf(i) IN
-      Cat(<<If(ConnackSP(e) # (existed /\ ~e.a.clean), Cmp("C14.session-present-flag", e.c, "", IF ConnackSP(e) THEN 1 ELSE 0)),
+      Cat(<<If(~ephemeral /\ ConnackSP(e) # (existed /\ ~e.a.clean), Cmp("C14.session-present-flag", e.c, "", IF ConnackSP(e) THEN 1 ELSE 0)),
+            If(ephemeral /\ ConnackSP(e) /\ e.a.clean, Cmp("C14.session-present-flag", e.c, "", 1)),
             \* resumed session keeps subscriptions and unacknowledged messages
-            IF existed /\ ~e.a.clean THEN
+            IF ConnackSP(e) THEN
                Cat(<<ForAll({s \in SubsOf(pre, e.c) : ~(\E s2 \in SubsOf(post, e.c) : SameSub(s, s2))}, LAMBDA s : Cmp("C14.subscription-lost-on-resume", e.c, s.fs, 0)),
                      ForAll({r \in InflightOf(pre, e.c) : r.t \in {PUBLISH, PUBREL} /\ ~(\E r2 \in InflightOf(post, e.c) : r2.pid = r.pid /\ r2.m = r.m)},
                             LAMBDA r : Cmp("C14.inflight-lost-on-resume", e.c, r.m, r.pid))>>)
@@ -750,7 +770,9 @@ J_C16(i) ==
         LAMBDA k : LET w == g.will[k]
                        E == EntitledPlain(Subs(pre), w.c, w.t, LAMBDA d : CanRead(d, w.ts)) IN
           Cat(<<ForAll({d \in E : Online(pre, d) /\ d # w.c /\ WireCopies(e, d, w.m) = 0 /\ ~Excused(i, d, w.m, 1)},
-                       LAMBDA d : Cmp("C16.will-not-published", w.c, w.m, 0)),
+                       LAMBDA d : IF e.ev = "disconnect" /\ e.a.short THEN Cmp("C16.will-not-published-on-short-disconnect-0x04", w.c, w.m, 0)
+                                  ELSE IF k \in g.wipedw THEN Cmp("C16.will-not-published-after-delayed-will-wiped-it", w.c, w.m, 0)
+                                  ELSE Cmp("C16.will-not-published", w.c, w.m, 0)),
                 ForAll({d \in E : WireCopies(e, d, w.m) = 1}, LAMBDA d :
                        LET q == PublishesOf(e, d, w.m)[1] IN
                        If(q.topic # w.t, Cmp("C16.will-attributes", w.c, w.m, 1))),
@@ -767,8 +789,11 @@ J_C16(i) ==
          \o ForAll({c \in DOMAIN g.pendw : g.pendw[c].due > e.tick + 1 /\ WillDelivered(e, g.pendw[c].m)}, LAMBDA c : Cmp("C16.delayed-will-published-early", c, g.pendw[c].m, g.pendw[c].due - e.tick))
       ELSE <<>>,
       \* a clean-start connection ends the session: a pending delayed will is due now
-      IF e.ev = "connect" /\ e.err = "" /\ ConnackOK(e) /\ ~ConnackSP(e) /\ e.c \in DOMAIN g.pendw THEN
-         LET w == g.pendw[e.c] E == EntitledPlain(Subs(pre), e.c, w.t, LAMBDA d : CanRead(d, w.ts)) IN
+      IF e.ev = "connect" /\ e.err = "" /\ ConnackOK(e) /\ ~ConnackSP(e)
+            /\ (e.c \in DOMAIN g.pendw \/ (\E k \in DOMAIN g.will : AbnormalEndG(i, k) /\ g.will[k].c = e.c /\ g.will[k].delay > 0 /\ g.will[k].v = 5)) THEN
+         LET w == IF e.c \in DOMAIN g.pendw THEN g.pendw[e.c]
+                  ELSE g.will[CHOOSE k \in DOMAIN g.will : AbnormalEndG(i, k) /\ g.will[k].c = e.c /\ g.will[k].delay > 0]
+             E == EntitledPlain(Subs(pre), e.c, w.t, LAMBDA d : CanRead(d, w.ts)) IN
          ForAll({d \in E : Online(pre, d) /\ d # e.c /\ WireCopies(e, d, w.m) = 0 /\ ~Excused(i, d, w.m, 1)}, LAMBDA d : Cmp("C16.delayed-will-lost-by-clean-start", e.c, w.m, 0))
       ELSE <<>>
     >>)
